@@ -867,3 +867,71 @@ func usesConfined(lk ssa.Value, guarded func(*ssa.BasicBlock) bool, onlyIn *ssa.
 	}
 	return ok && real > 0
 }
+
+// C09/token-text-not-substituted: in the formatter's unit (its visitor methods and the parser-package helpers they call) the text of
+// a token is never replaced by another constant under a test of that very text (`if pad == "'\\x00'" { pad = "'\x00'" }`): the
+// formatter prints what the author wrote; decoding a spelling is the compiler's business. A helper shared with the model visitor that
+// decodes the pad character makes the formatter print a raw NUL, which the lexer does not accept back.
+func c09TokenTextNotSubstituted(w *World, r *Report, prop string) {
+	rule := prop + "/token-text-not-substituted"
+	cf := newCmtFlow(w)
+	set := cf.flowFrom(tokenTextSeeds(cf))
+	n := 0
+	for _, fn := range cf.fns {
+		bad := ""
+		forEachInstr(fn, func(b *ssa.BasicBlock, ins ssa.Instruction) {
+			phi, ok := ins.(*ssa.Phi)
+			if !ok || !isStringType(phi.Type()) || bad != "" {
+				return
+			}
+			hasText := false
+			for _, e := range phi.Edges {
+				if set[e] {
+					hasText = true
+				}
+			}
+			if !hasText {
+				return
+			}
+			n++
+			for i, e := range phi.Edges {
+				k, isK := e.(*ssa.Const)
+				if !isK || k.Value == nil {
+					continue
+				}
+				pred := b.Preds[i]
+				for _, tb := range fn.Blocks {
+					cond, isB := branchCond(tb).(*ssa.BinOp)
+					if !isB || (cond.Op != token.EQL && cond.Op != token.NEQ) {
+						continue
+					}
+					var txt ssa.Value
+					var lit *ssa.Const
+					if c, ok := cond.Y.(*ssa.Const); ok && set[cond.X] {
+						txt, lit = cond.X, c
+					} else if c, ok := cond.X.(*ssa.Const); ok && set[cond.Y] {
+						txt, lit = cond.Y, c
+					}
+					if txt == nil || lit.Value == nil || lit.Value.ExactString() == k.Value.ExactString() {
+						continue
+					}
+					succ := 0
+					if cond.Op == token.NEQ {
+						succ = 1
+					}
+					if pred == tb && tb.Succs[succ] == b || edgeDominates(tb, succ, pred) {
+						bad = fmt.Sprintf("the token text is replaced by the constant %s where it equals %s (at %s)", k.Value.ExactString(), lit.Value.ExactString(), w.instrPos(phi))
+					}
+				}
+			}
+		})
+		if fn.Parent() != nil {
+			continue
+		}
+		key := fnKey(fn) + ": the text of a token is passed on as written"
+		if bad != "" {
+			r.fail(rule, key, w.pos(fn.Pos()), bad+": the formatter prints another spelling than the author wrote - a decoded escape (a raw NUL) is not a token the lexer accepts back, and the second pass differs from the first")
+		}
+	}
+	r.pass(rule, "token text merged with constants is not a substitution", "internal/parser/packet_dsl_formattor.go", fmt.Sprintf("%d joins of token text with other values examined", n))
+}
